@@ -17,7 +17,7 @@ import itertools
 import re
 from typing import Any, Dict, Iterable, List, Sequence, Tuple
 
-CLASSES: Dict[str, List[Tuple[str, str]]] = {
+CLASSES: Dict[str, List[Tuple[str, ...]]] = {      # (name, pattern[, refinement])
     "Time_Period": [
         ("blank-padded", r"\s.*|.*\s"),
         # vtl_period_normalize: 'xxxx-L<tail>' with a tail that TRY_CAST cannot read becomes NULL (accepted when nullable)
@@ -29,6 +29,7 @@ CLASSES: Dict[str, List[Tuple[str, str]]] = {
         ("week-53", r"\d{4}-?W53"),
         ("month-00-or-13-to-99", r"\d{4}-?M(0?0|1[3-9]|[2-9]\d)|\d{4}-(0?0|1[3-9]|[2-9]\d)"),
         ("day-000-or-367-to-999", r"\d{4}-?D(0{1,3}|36[7-9]|3[7-9]\d|[4-9]\d\d)"),
+        ("day-366-of-common-year", r"\d{4}-?D366", "common-year"),
         ("day-366", r"\d{4}-?D366"),
         ("number-with-too-many-digits", r"\d{4}-?[SQ]\d{2,}|\d{4}-?[MW]\d{3,}|\d{4}-?D\d{4,}|\d{4}-\d{3,}"),
         ("date-with-trailing-text", r"\d{4}-\d{2}-\d{2}.+"),
@@ -49,7 +50,12 @@ CLASSES: Dict[str, List[Tuple[str, str]]] = {
     ],
     "Time": [
         ("year-or-month-form", r"\s*(\d{4}|\d{4}-\d{1,2})\s*"),
-        # the shape both sides read (after trimming): a disagreement here is about the ORDER of the two ends
+        # check_time bounds the first digit of month ([0-1]) and day ([0-3]); the loader pattern takes any two digits
+        ("interval-month-or-day-first-digit-out-of-range",
+         r"\s*(\d{4}-([2-9]\d-\d{2}|\d{2}-[4-9]\d)(T\d{2}:\d{2}:\d{2})?/\d{4}-\d{2}-\d{2}(T\d{2}:\d{2}:\d{2})?"
+         r"|\d{4}-\d{2}-\d{2}(T\d{2}:\d{2}:\d{2})?/\d{4}-([2-9]\d-\d{2}|\d{2}-[4-9]\d)(T\d{2}:\d{2}:\d{2})?)\s*"),
+        # the shape both sides read (after trimming): the listed disagreement is about the ORDER of the two ends
+        ("interval-start-after-end", r"\s*\d{4}-\d{2}-\d{2}(T\d{2}:\d{2}:\d{2})?/\d{4}-\d{2}-\d{2}(T\d{2}:\d{2}:\d{2})?\s*", "start-after-end"),
         ("well-formed-interval", r"\s*\d{4}-\d{2}-\d{2}(T\d{2}:\d{2}:\d{2})?/\d{4}-\d{2}-\d{2}(T\d{2}:\d{2}:\d{2})?\s*"),
         ("lower-case-t", r"\s*\d{4}-\d{2}-\d{2}([Tt]\d{2}:\d{2}:\d{2})?/\d{4}-\d{2}-\d{2}([Tt]\d{2}:\d{2}:\d{2})?\s*"),
         ("blank-separator-or-fraction", r"\s*\d{4}-\d{2}-\d{2}([T ]\d{2}:\d{2}:\d{2}(\.\d+)?)?/\d{4}-\d{2}-\d{2}([T ]\d{2}:\d{2}:\d{2}(\.\d+)?)?\s*"),
@@ -94,37 +100,90 @@ def shape_regex(sh: str) -> str:
     return "".join(out)
 
 
+# Semantic refinements: a class may be 'pattern AND predicate', so that a calendar-dependent disagreement that is listed
+# as known (day 366 of a COMMON year, an interval whose start is AFTER its end) does not hide its complement (day 366 of a
+# leap year, start <= end).  Each predicate exists twice: on a concrete string and as an SMT condition over the characters.
+def _leap(y: int) -> bool:
+    return y % 4 == 0 and (y % 100 != 0 or y % 400 == 0)
+
+
+def _interval_parts(core: str) -> Tuple[str, str]:
+    a, _, b = core.partition("/")
+    return a, b
+
+
+def _py_common_year(s: str) -> bool:
+    return not _leap(int(s[:4]))
+
+
+def _smt_common_year(chars: Sequence[Any]) -> Any:
+    from vc import calendar as cal
+    from vc.smt import Not
+    from vc.sqlvc import digits_value
+    return Not(cal.is_leap(digits_value(chars[:4])))
+
+
+def _py_start_after_end(s: str) -> bool:
+    a, b = _interval_parts(s.strip())
+    return a > b
+
+
+def _smt_start_after_end(chars: Sequence[Any]) -> Any:
+    """strip() + split('/') + string comparison, over every placement of the blanks and of the slash."""
+    from vc.smt import And, Eq, Ge, Le, Not, Or
+    from vc.sqlvc import CStr
+    n = len(chars)
+
+    def sp(c: Any) -> Any:
+        return Or(Eq(c, 32), And(Ge(c, 9), Le(c, 13)))
+    alts = []
+    for a in range(0, n):
+        for b in range(0, n - a):
+            core = list(chars[a:n - b])
+            for p in (10, 19):
+                if len(core) - p - 1 not in (10, 19):
+                    continue
+                alts.append(And(*[sp(c) for c in list(chars[:a]) + list(chars[n - b:])], Not(sp(core[0])), Not(sp(core[-1])),
+                                Eq(core[p], 47), CStr(core[p + 1:]).lt(CStr(core[:p]))))
+    return Or(*alts) if alts else False
+
+
+REFINE = {"common-year": (_py_common_year, _smt_common_year), "start-after-end": (_py_start_after_end, _smt_start_after_end)}
+
+
+def _entries(tname: str) -> List[Tuple[str, str, str]]:
+    return [(e[0], e[1], e[2] if len(e) > 2 else "") for e in CLASSES.get(tname, [])]  # type: ignore[misc]
+
+
 def classify(tname: str, s: Any) -> str:
     if not isinstance(s, str):
         return f"non-string:{type(s).__name__}"
-    for name, rx in CLASSES.get(tname, []):
+    for name, rx, ref in _entries(tname):
         if re.fullmatch(rx, s, _FLAGS.get(tname, 0) | re.ASCII):       # ASCII classes, as vc.regexvc reads them
+            if ref and not REFINE[ref][0](s):
+                continue
             return name
     return "other:" + shape(s)
-
-
-def class_regexes(tname: str, cls: str) -> Tuple[str, List[str]]:
-    """(pattern of the class, patterns of the classes that take precedence)."""
-    table = CLASSES.get(tname, [])
-    earlier: List[str] = []
-    for name, rx in table:
-        if name == cls:
-            return rx, earlier
-        earlier.append(rx)
-    if cls.startswith("other:"):
-        return shape_regex(cls[len("other:"):]), earlier
-    raise KeyError(cls)
 
 
 def class_region(tname: str, cls: str, chars: Sequence[Any]) -> Any:
     """SMT condition 'the character vector is in class cls' (exact, first-match semantics of classify)."""
     from vc import regexvc
     from vc.smt import And, Not
-    rx, earlier = class_regexes(tname, cls)
-    fl = _FLAGS.get(tname, 0)
-    if fl:
+    if _FLAGS.get(tname, 0):
         raise NotImplementedError("case-insensitive class tables are only used in the bounded tier")
-    return And(regexvc.fullmatch(rx, chars), *[Not(regexvc.fullmatch(e, chars)) for e in earlier])
+
+    def member(rx: str, ref: str) -> Any:
+        m = regexvc.fullmatch(rx, chars)
+        return And(m, REFINE[ref][1](chars)) if ref else m
+    earlier: List[Any] = []
+    for name, rx, ref in _entries(tname):
+        if name == cls:
+            return And(member(rx, ref), *[Not(e) for e in earlier])
+        earlier.append(member(rx, ref))
+    if cls.startswith("other:"):
+        return And(regexvc.fullmatch(shape_regex(cls[len("other:"):]), chars), *[Not(e) for e in earlier])
+    raise KeyError(cls)
 
 
 # ----------------------------------------------------------------------------------------------------------------------
